@@ -290,7 +290,7 @@ def ctls_set(tier):
 
 
 def run_c03(rep, tier):
-    rep.assumptions += ['total Kripke structures with n<=2 (3 thorough) states over {p,q}; formulas: quantifier nesting <=2, <=3 temporal operators per quantifier, from the stated sets',
+    rep.assumptions += ['total Kripke structures with n<=2 states over {p,q} (n=3 for two non-CTL formulas; 42 formulas in thorough); formulas: quantifier nesting <=2, <=3 temporal operators per quantifier, from the stated sets',
                         'reference = CTL* product oracle (state subformulas first); same stability obligations as C02']
     rep.cov['trusted_base'] = TRUSTED
     rep.cov['explanation'] = ('CTLS.modelcheck incl. the clone, fresh-atom labelling of the clone, the CTL fast path, the TypeError->LTL fallback and the E g = not A not g branch, '
@@ -299,11 +299,14 @@ def run_c03(rep, tier):
     fs = ctls_set(tier)
     tasks = [('CTLS', 1, ch, {}) for ch in chunks(fs, 30)]
     tasks += [('CTLS', 2, ch, {}) for ch in chunks(fs, 3)]
+    # three states: two formulas that are NOT CTL (they take the LTL route; 2-3.5 min each, started first)
+    n3q = ['A X (p U q)', 'E G F p']
+    tasks = [('CTLS', 3, [x], dict(audit=False, timeout_ms=1500000)) for x in n3q] + tasks
     if tier == 'thorough':
-        small = [t for t in fs if formulas.temporal_ops(mc.parse('CTLS', t)) <= 2][:40]
-        tasks += [('CTLS', 3, [t], {}) for t in small]
+        small = [t for t in fs if formulas.temporal_ops(mc.parse('CTLS', t)) <= 2 and t not in n3q][:40]
+        tasks += [('CTLS', 3, [t], dict(timeout_ms=1500000)) for t in small]
         tasks += [('CTLS', 2, ['A (G F p --> G F q)'], {})]          # e=4: ~9 min
-    rep.cov['bounds'].update(n='1..2' + (' ; n=3 for 40 formulas with <=2 temporal operators' if tier == 'thorough' else ''), formulas=len(fs))
+    rep.cov['bounds'].update(n='1..2; n=3 for %s' % ', '.join(n3q) + (' and 40 formulas with <=2 temporal operators' if tier == 'thorough' else ''), formulas=len(fs))
     done, fallback = 0, 0
     for t, st, recs, secs in pmap(mc.mc_task, tasks, mem_heavy=(tier == 'thorough')):
         if st != 'ok':
